@@ -142,6 +142,14 @@ CLAIMED = {
             'File encoders, loaders and csv replay are not decided.',
             'DESIGN.md 4/C15', 'NumPy copy/gather/save contracts assumed; time stamps new (C06)',
             'contract-based deductive verification: symbolic execution with ghost file / row-dict models + SMT'),
+    'C13': ('proof',
+            'Narrow: NumParam.add / BaseParam._sanitize (stored value = input or default per missing/NaN/non_zero/... ; '
+            'mandatory => ValueError), mpc2system (every bus/gen/branch row reaches System.add with the MATPOWER column '
+            'mapping and units), system2mpc (columns and units, one load per bus; F14 known), PSS/E v33 record functions for '
+            'bus, load, fixed shunt, generator, branch (F25 fixed) and two-winding transformer (F26, F27 known) against the '
+            'record layout. Text-level parsing, DYR mapping, 3-winding transformers and xlsx/json round trips are not reachable.',
+            'DESIGN.md 4/C13', 'format layouts transcribed from the format descriptions; System.add / Bus.get contracts',
+            'contract-based deductive verification: per-record call-site obligations by symbolic execution + SMT'),
 }
 
 ALL = ['C%02d' % i for i in range(1, 21)]
